@@ -355,6 +355,28 @@ func dumpAside(r *rand.Rand) {
 	}
 }
 
+// a call whose per-call function panics after an earlier rule of the same call has already written a clause: the panic
+// is the caller's own (recovered here, not judged); the calls that FOLLOW are judged as usual and must not see
+// anything of it
+type boomProbe struct {
+	A string
+	B string
+	C int
+}
+
+func panicAside(r *rand.Rand) {
+	defer func() { _ = recover() }()
+	boom := func(errBuf *strings.Builder, validName, objName, fieldName string, tv reflect.Value) { panic("user function") }
+	if chance(r, 0.5) {
+		vs := valid.NewVStruct()
+		vs.SetRule(valid.RM{"A": "to=1~2", "B": "lboom", "C": "ge=5"})
+		vs.SetValidFn("lboom", boom)
+		_ = vs.Valid(&boomProbe{A: "abcdef", B: "x", C: 1})
+	} else {
+		_ = valid.NewVVar().SetRules("to=1~2", "lboom").SetValidFn("lboom", boom).Valid("abcdef")
+	}
+}
+
 // ---- cache implementations -------------------------------------------------------------------------
 
 type missCache struct{}
@@ -403,6 +425,9 @@ func init() {
 			if chance(r, 0.05) {
 				dumpAside(r)
 			}
+			if chance(r, 0.03) {
+				panicAside(r)
+			}
 			switch r.IntN(9) {
 			case 8:
 				return twoLiveCase(r)
@@ -427,6 +452,9 @@ func init() {
 		Gen: func(r *rand.Rand, tier string) Case {
 			if chance(r, 0.05) {
 				retainCase(r)
+			}
+			if chance(r, 0.02) {
+				panicAside(r)
 			}
 			switch r.IntN(9) {
 			case 8:
